@@ -11,6 +11,7 @@ import (
 	"strings"
 	"sync"
 	"syscall"
+	"time"
 	"unsafe"
 
 	"github.com/openacid/low/bitmap"
@@ -49,7 +50,7 @@ func init() {
 		ID:    "C19",
 		Level: "model_checking",
 		Rule: "E4: (schedules) every unordered pair of the function alphabet (one entry per exported query/codec function of bitmap, bmtree, bitstr, bitword, sigbits + TailBitmap.Get/Get1) as a 2-thread program on SHARED inputs, all schedules with ≤P preemptions, and every triple over a 16-entry sub-alphabet with ≤P-1 preemptions; scheduling points are inserted automatically (vinstr, from the current working tree) before every statement that mentions a package-level variable, a method receiver or an alias of either; oracle: per-thread results equal the sequential results, exactly one outcome per program, package state unchanged; plus a COLD-START exploration in which every schedule of every same-function pair (thorough: and of every pair of the sub-alphabet) runs in a fresh process with inputs built by reference code, so that first-use windows of lazily initialised state are inside the schedules. " +
-			"(footprint, no scheduling) every alphabet entry × every variant of its parameter grid × 4 input sets with all slice/string arguments in read-only mmap'ed memory (any store faults), package-state deep hash unchanged by every call after a full warm-up pass, results identical in forward and reverse order and identical between the plain and the instrumented binary; every returned value is kept (the value itself, not a copy) and rendered again after the whole pass, after one element was appended to every returned slice, and - on fresh arguments - after every argument buffer was overwritten as a caller reusing its buffers does (a result must not be a view of argument memory). (race pass, supplementary) the same bodies free-running under -race in a fresh process. " +
+			"(footprint, no scheduling) every alphabet entry × every variant of its parameter grid × 4 input sets with all slice/string arguments in read-only mmap'ed memory (any store faults), package-state deep hash unchanged by every call after a full warm-up pass, results identical in forward and reverse order and identical between the plain and the instrumented binary; every returned value is kept (the value itself, not a copy) and rendered again after the whole pass, after one element was appended to every returned slice, and - on fresh arguments - after every argument buffer was overwritten as a caller reusing its buffers does (a result must not be a view of argument memory); and every element of every returned slice is overwritten in place, after which every call is made once more on the same arguments and must give what it gave before (a result must not be memory the library reads again: a table, a cache, an argument). (race pass, supplementary) the same bodies free-running under -race in a fresh process. " +
 			"states = distinct schedules (choice-tree nodes), transitions = scheduling points executed; non-trivial schedules are those with at least one preemption.",
 		Assumptions: []string{
 			"preemption only at instrumented statements, at statement granularity, sequentially consistent memory; unsynchronised accesses elsewhere are left to the exact argument footprint and the (sampling) race pass",
@@ -78,7 +79,9 @@ type c19In struct {
 	BMs                        [][]uint64
 	Mask                       int32
 	Nodes, Stored              []uint64
-	WordLists                  [][]byte // bitword words of Strs[i] for width c19Widths[i%4]
+	WordLists                  [][]byte // bitword words of the plain strings, complete and cut short
+	WordWidths                 []int    // the width WordLists[i] is to be read with
+	WordComplete               int      // the first WordComplete lists fill their last byte
 	TB                         *bitmap.TailBitmap
 	Longs                      [][]uint64 // bitmaps whose lengths sit around powers of two (index builders)
 	Pos                        []int32
@@ -384,6 +387,17 @@ func c19Build(k int, al alloc) *c19In {
 	in.BMs = append(in.BMs, al.u64s([]uint64{}), al.u64s([]uint64{^uint64(0), ^uint64(0)}))
 	for i, p := range plain {
 		in.WordLists = append(in.WordLists, al.bytes(refWords(p, c19Widths[i%4])))
+		in.WordWidths = append(in.WordWidths, c19Widths[i%4])
+	}
+	in.WordComplete = len(in.WordLists)
+	// word lists that do NOT fill their last byte (ToStr has to pad): every width < 8, 1..3 words short
+	for i, p := range plain {
+		w := c19Widths[i%3]
+		full := refWords(p, w)
+		for cut := 1; cut <= 3 && cut < len(full); cut++ {
+			in.WordLists = append(in.WordLists, al.bytes(full[:len(full)-cut]))
+			in.WordWidths = append(in.WordWidths, w)
+		}
 	}
 	for _, l := range []int{1, 2, 3, 63, 64, 65, 126, 127, 128, 129, 254, 255, 256, 257, 510, 511, 512, 513, 1022, 1023, 1024, 1025} {
 		lw := make([]uint64, l)
@@ -488,6 +502,11 @@ func c19Alphabet() []c19Call {
 			}
 			return pr(bmtree.AllPaths(in.Mask, in.Nodes[k], in.Nodes[to]+1))
 		}, true},
+		{"bmtree.AllPaths/whole-small-trees", func(*c19In) int { return 12 }, func(in *c19In, k int) interface{} {
+			// every node of the full trees of height 0..5 and of six partial ones: the ranges Decode asks for
+			masks := []int32{1, 3, 7, 15, 31, 63, 2, 4, 5, 6, 0xa, 0x19}
+			return pr(bmtree.AllPaths(masks[k], 0, 1<<63))
+		}, false},
 		{"bmtree.Decode", func(in *c19In) int { return len(in.BMs) }, func(in *c19In, k int) interface{} {
 			if k%2 == 0 {
 				return pr(bmtree.Decode(in.Mask&0x3|0x4, in.BMs[k])) // height 2: short enough for schedule exploration
@@ -522,8 +541,12 @@ func c19Alphabet() []c19Call {
 		{"bitword.FromStr", func(in *c19In) int { return 4 * len(in.Strs) }, func(in *c19In, k int) interface{} {
 			return pr(bitword.BitWord[c19Widths[k%4]].FromStr(in.Strs[k/4]))
 		}, true},
-		{"bitword.ToStr", func(in *c19In) int { return len(in.WordLists) }, func(in *c19In, k int) interface{} {
-			return c19Hex(bitword.BitWord[c19Widths[k%4]].ToStr(in.WordLists[k])) // the string itself: re-read after the pass
+		{"bitword.ToStr", func(in *c19In) int { return in.WordComplete }, func(in *c19In, k int) interface{} {
+			return c19Hex(bitword.BitWord[in.WordWidths[k]].ToStr(in.WordLists[k])) // the string itself: re-read after the pass
+		}, false},
+		{"bitword.ToStr/partial-last-byte", func(in *c19In) int { return len(in.WordLists) - in.WordComplete }, func(in *c19In, k int) interface{} {
+			k += in.WordComplete
+			return c19Hex(bitword.BitWord[in.WordWidths[k]].ToStr(in.WordLists[k]))
 		}, false},
 		{"bitword.Get", func(in *c19In) int { return 4 * len(in.S) }, func(in *c19In, k int) interface{} {
 			w := c19Widths[k%4]
@@ -540,12 +563,17 @@ func c19Alphabet() []c19Call {
 			}
 			return c19HexList(bw.ToStrs(bw.FromStrs(in.Strs)))
 		}, false},
-		{"bitword.ToStrs", func(*c19In) int { return 4 }, func(in *c19In, k int) interface{} {
+		{"bitword.ToStrs", func(*c19In) int { return 8 }, func(in *c19In, k int) interface{} {
 			var lists [][]byte
-			for i := k; i < len(in.WordLists); i += 4 { // the word lists of width c19Widths[k]
-				lists = append(lists, in.WordLists[i])
+			for i := range in.WordLists { // the word lists of width c19Widths[k%4]: the complete ones, or (k >= 4) two cut short
+				if in.WordWidths[i] != c19Widths[k%4] {
+					continue
+				}
+				if (k < 4 && i < in.WordComplete) || (k >= 4 && i >= in.WordComplete && len(lists) < 2) {
+					lists = append(lists, in.WordLists[i])
+				}
 			}
-			return c19HexList(bitword.BitWord[c19Widths[k]].ToStrs(lists))
+			return c19HexList(bitword.BitWord[c19Widths[k%4]].ToStrs(lists))
 		}, false},
 		{"bitword.FromStrs", func(*c19In) int { return 4 }, func(in *c19In, k int) interface{} {
 			return bitword.BitWord[c19Widths[k%4]].FromStrs(in.Strs[:3]) // the slices themselves: re-read and poked after the pass
@@ -610,6 +638,74 @@ func c19AppendPoke(v reflect.Value, depth int) {
 			}
 		}
 	}
+}
+
+// c19OverwritePoke overwrites, in place, every element of every slice reachable from
+// a returned value: the caller owns what a function returns and may filter, sort or
+// clear it. It returns the number of elements written.
+func c19OverwritePoke(v reflect.Value, depth int) (n int) {
+	if !v.IsValid() || depth > 3 {
+		return 0
+	}
+	switch v.Kind() {
+	case reflect.Interface:
+		return c19OverwritePoke(v.Elem(), depth+1)
+	case reflect.Slice:
+		for i := 0; i < v.Len(); i++ {
+			e := v.Index(i)
+			switch e.Kind() {
+			case reflect.Slice, reflect.Interface:
+				n += c19OverwritePoke(e, depth+1)
+			case reflect.Uint8, reflect.Uint16, reflect.Uint32, reflect.Uint64, reflect.Uint:
+				if e.CanSet() {
+					e.SetUint(^e.Uint() ^ 0x5a)
+					n++
+				}
+			case reflect.Int8, reflect.Int16, reflect.Int32, reflect.Int64, reflect.Int:
+				if e.CanSet() {
+					e.SetInt(^e.Int() ^ 0x5a)
+					n++
+				}
+			case reflect.String:
+				if e.CanSet() {
+					e.SetString("\x5aoverwritten by the caller")
+					n++
+				}
+			}
+		}
+	}
+	return n
+}
+
+// c19ResultPoke: a forward pass whose results are rendered, then overwritten in place
+// by the caller, then the same pass once more on the same arguments. The second
+// pass must give what the first gave: a result must not be (a view of) memory the
+// library reads again - a package-level table, a cache, an argument.
+func c19ResultPoke(alpha []c19Call, in *c19In) (bad []c19Retained, poked int) {
+	defer debug.SetGCPercent(debug.SetGCPercent(-1))
+	first := make([][]string, len(alpha))
+	vals := make([][]interface{}, len(alpha))
+	for ci := range alpha {
+		n := alpha[ci].N(in)
+		first[ci] = make([]string, n)
+		vals[ci] = make([]interface{}, n)
+		for k := 0; k < n; k++ {
+			vals[ci][k], first[ci][k] = c19SafeV(&alpha[ci], in, k)
+		}
+	}
+	for ci := range alpha {
+		for _, v := range vals[ci] {
+			poked += c19OverwritePoke(reflect.ValueOf(v), 0)
+		}
+	}
+	for ci := range alpha {
+		for k := range first[ci] {
+			if now := c19Safe(&alpha[ci], in, k); now != first[ci][k] {
+				bad = append(bad, c19Retained{ci, k, first[ci][k], now})
+			}
+		}
+	}
+	return bad, poked
 }
 
 // c19Hex / c19HexList: a returned string (list) kept AS RETURNED - not copied - and
@@ -774,6 +870,18 @@ func c19Footprint(c *mc.Ctx) (digest string) {
 			c.Expect(int64(len(fwd[ci])))
 			c.Add("returned_values_rechecked_after_overwriting_the_arguments", int64(len(fwd[ci])))
 		}
+		// (4) no returned slice is memory the library reads again: overwrite every returned slice in
+		// place (the caller owns it), then every call once more on the same arguments
+		ha3 := newHeapAlloc()
+		bad, poked := c19ResultPoke(alpha, c19Build(set, ha3))
+		for _, r := range bad {
+			c.Fail(7<<50|int64(set)<<40|int64(r.Call)<<20|int64(r.Variant), "resultpoke", "resultpoke", c19Case{Call: alpha[r.Call].Name, Variant: r.Variant, Input: set}, "after the caller overwrote every returned slice in place: "+clipS(r.Now), "as before: "+clipS(r.Then))
+		}
+		for ci := range alpha {
+			c.Count(int64(len(fwd[ci])), int64(len(fwd[ci])))
+			c.Expect(int64(len(fwd[ci])))
+		}
+		c.Add("elements_of_returned_slices_overwritten", int64(poked))
 	}
 	debug.SetPanicOnFault(false)
 	c.ForceSample(c19Case{Call: alpha[3].Name, Variant: 5, Input: 1, Note: "footprint: arguments mapped read-only"})
@@ -849,7 +957,15 @@ type c19WorkerOut struct {
 
 func c19Run(c *mc.Ctx) {
 	c.NoExpect()
+	phase := map[string]float64{}
+	t0 := time.Now()
+	lap := func(name string) {
+		phase[name] = time.Since(t0).Seconds()
+		t0 = time.Now()
+		c.Set("phase_seconds", phase)
+	}
 	digest := c19Footprint(c)
+	lap("footprint_oracles")
 	c.Set("plain_results_digest", digest)
 
 	c.Set("programs_declared", len(c19Programs(c.Thorough, func(int, int) int { return 0 })))
@@ -876,6 +992,7 @@ func c19Run(c *mc.Ctx) {
 			c.Set("instrumented_binary_agrees_with_plain", true)
 		}
 		c19Merge(c, &gw, 2<<50)
+		lap("package_state")
 		const shards = 16
 		outs := make([]c19WorkerOut, shards)
 		var wg sync.WaitGroup
@@ -915,6 +1032,7 @@ func c19Run(c *mc.Ctx) {
 			}
 		}
 		c.Set("programs_with_more_than_one_outcome", multi)
+		lap("schedules")
 		// cold-start exploration: one fresh process per schedule (first-use windows of lazily
 		// initialised state), same-function pairs (thorough: also all pairs of the sub-alphabet)
 		couts := make([]c19WorkerOut, shards)
@@ -945,6 +1063,8 @@ func c19Run(c *mc.Ctx) {
 			c19Merge(c, o, 6<<50|int64(s)<<40)
 		}
 	}
+	lap("cold_start")
+	defer lap("race_pass")
 	// supplementary free-running race pass
 	if rb := os.Getenv("VERIF_RACE_BIN"); rb != "" {
 		out, err := exec.Command(rb, "-worker", "c19race", c.Tier).CombinedOutput()
@@ -1024,6 +1144,18 @@ func c19Judge(kind string, raw json.RawMessage) (string, string, error) {
 			}
 		}
 		return "value as returned: " + clipS(fwd[ci][cs.Variant]), "value as returned: " + clipS(fwd[ci][cs.Variant]), nil
+	case "resultpoke":
+		ci := find(cs.Call)
+		if ci < 0 {
+			return "", "", fmt.Errorf("unknown call %q", cs.Call)
+		}
+		bad, _ := c19ResultPoke(alpha, c19Build(cs.Input, newHeapAlloc()))
+		for _, r := range bad {
+			if r.Call == ci && r.Variant == cs.Variant {
+				return "after the caller overwrote every returned slice in place: " + clipS(r.Now), "as before: " + clipS(r.Then), nil
+			}
+		}
+		return "as before", "as before", nil
 	case "argview":
 		ci := find(cs.Call)
 		if ci < 0 {
